@@ -7,6 +7,10 @@
               variables and everything bpaf inserted is concrete, so provenance is exact:
                 K1  no output line starts with a *user* byte that can be `.` or `'`
                 K2  a user byte that can be `\\` is immediately preceded by an inserted `\\`
+  roff:*      the Roff builder API (control / control0 / plaintext / text / roff_linebreak / strip_newlines)
+              followed by Roff::render, from MIR, user strings of symbolic bytes over the same alphabet plus
+              `"`: K1 and K2 on the rendered text - here the escaping mode a user string travels in is chosen
+              by the executed code, not assumed
   style:*     html.rs change_style for all 8x8 (current, new) style pairs (symbolic booleans): the tags
               written close the open ones in reverse opening order and open the new ones
   html:*      Doc::render_html executed from MIR (incl. the Splitter) on the block structures bpaf emits,
@@ -927,6 +931,7 @@ def finish(results, jobs, build, out, tier, seed, wall):
         "solver_time_s": st["solver_s"],
         "obligations": sum(r.get("obligations", 0) for r in results),
         "bounds": {"roff": "1..=%d fragments (5 of bpaf's own, 3 user modes), user fragments of 1..=%d bytes (one byte in sequences of four fragments) over {. ' \\\\ - space \\\\n a}" % ((3, 2) if tier == "quick" else (4, 3)),
+                   "roff_api": "%d call sequences of the Roff builder (%s), user strings of 1..=%d symbolic bytes over {. ' \\ - space \\n a \"}, at most %d symbolic bytes per sequence, both apostrophe modes" % (len(ROFF_OPS), " ".join(ROFF_OPS), 3 if tier == "quick" else 4, 4 if tier == "quick" else 6),
                    "html": "7 block templates, text bytes over {< > & a space \\\\n}, total text length <= %d, full and short" % (4 if tier == "quick" else 5),
                    "style": "all 64 (current, new) pairs", "sections": "c1 c2 c3 c4 h2 g1 c7 c8 c9",
                    "documents": "markdown, html and manpage of %s: every command level has exactly one section, each section mentions the visible named items and commands of its level, hidden items are mentioned nowhere; text identical to the native build's" % " ".join(DOC_GRAMMARS)},
@@ -938,7 +943,7 @@ def finish(results, jobs, build, out, tier, seed, wall):
     }
     assumptions = [
         "provenance in the roff kernel is exact because inserted bytes are concrete and user bytes stay symbolic on every path",
-        "user text may only be pushed with Special / SpecialNoNewline / Spaces (that is what Roff::plaintext / control do); a Spaces fragment always follows the literal argument separator (Roff::control); bpaf's own fragments are the literals used in roff.rs",
+        "escape:* jobs: user text is pushed with Special / SpecialNoNewline / Spaces, a Spaces fragment always follows the literal argument separator, bpaf's own fragments are the literals used in roff.rs; roff:* jobs drop these assumptions (the builder API is executed and picks the modes itself)",
         "HTML: user bytes are rendered as text; the tag structure is read from the concrete part of the output",
         "whole documents are rendered for fixed corpus definitions (no symbolic input: the definition is the only input); the per-section obligations read names, not help texts or metavariables; markdown cosmetics are not judged",
     ]
